@@ -126,7 +126,12 @@ def run(ctx):
         for f2 in (False, True):
             for f3 in (False, True):
                 conds.append(xh.Cond(f"iter_files flags=(submodules={f1},meson={f2},tomls={f3})", "C03.py", "_walk", {"flags": [f1, f2, f3], "carve": carve, "filenames": [0, 1, 9, 11, 16] if tier == "quick" else [0, 1, 3, 5, 9, 11, 12, 14, 16, 25]}, timeout=tmo, twin="_walk_reach"))
+    for f1 in (False, True):
+        for f2 in (False, True):
+            for req, what in ((0, "root"), (1, "D"), (2, "D/pkg"), (4, "a file")):
+                conds.append(xh.Cond(f"annotate --recursive {what} flags=(submodules={f1},meson={f2})", "C03.py", "_rec", {"flags": [f1, f2, False], "requests": [req], "filenames": [0, 1, 9] if tier == "quick" else [0, 1, 9, 11, 16], "carve": carve}, timeout=tmo, twin="_rec_reach"))
     ctx.functions_encoded = [
+        "reuse.cli.annotate.all_paths + Project.all_files (recursive expansion over the same model)",
         "reuse.covered_files._IGNORE_FILE_PATTERNS / _IGNORE_DIR_PATTERNS / _IGNORE_MESON_PARENT_DIR_PATTERNS (compiled patterns -> z3)",
         "reuse.covered_files.is_path_ignored (symbolic kind, flags, VCS answers, subset)",
         "reuse.covered_files.iter_files (os.walk replaced by a pruning-aware model)",
@@ -134,13 +139,14 @@ def run(ctx):
     ctx.bounds = {
         "names (RZ3)": "unbounded: every name without '/' and NUL, any length; LF-free and LF-containing separately",
         "is_path_ignored": "27 names on both sides of each rule x 6 kinds (file, empty, dir, symlink to file/dir, stat error) x parent in {src, subprojects} x VCS {none, ignored?, submodule?} x 3 include flags x subset {none, in, out}",
+        "annotate -r": "the same tree; the requested path is the root, D, D/pkg, top.py or G",
         "iter_files": "root/{top.py, D/} with D in {src, LICENSES, .git, subprojects, .reuse}, D symlink? ignored? submodule?; D/{G, pkg/h.py} with G from a name list x {file, empty, symlink} x ignored?; all 8 flag combinations",
     }
     ctx.stubs = ["pathlib.Path replaced by a model (is_symlink/is_file/is_dir/stat/resolve)", "VCS strategy replaced by arbitrary answers (is_ignored, is_submodule)", "os.walk replaced by a top-down generator that honours in-place pruning"]
     ctx.outside = [
         "Git's own answer: what `git ls-files --ignored`/check-ignore say for a given .gitignore is an external process, not encodable; decided here: given ANY answer of the VCS layer the selection is right",
         "trees deeper than two levels",
-        "annotate --recursive expansion (checked under C11's model)",
+
     ]
     ctx.assumptions = ["'.git' as a file (gitlink) and '.hgtags' count as VCS metadata on the reference side"]
 
@@ -148,6 +154,8 @@ def run(ctx):
         if c.func == "_ign":
             key = "license-text-workaround" if ex["name"].startswith(("CAL-1.0", "SHL-2.1")) else f"decision:{ex['name']}:{ex['kind']}:{ex['subset']}"
             return key, f"is_path_ignored says {ex['got']} but the statement says {ex['expected']} for {ex}", {"harness": "C03.py::_ign", "explain": ex}
+        if c.func == "_rec":
+            return f"annotate-r:{ex['dir']}:{ex['requested']}", f"annotate -r {ex['requested']} expands to {ex['got']}, the covered files below it are {ex['expected']} ({ {k: v for k, v in ex.items() if k not in ('got', 'expected')} })", {"harness": "C03.py::_rec", "explain": ex}
         key = "license-text-workaround" if ex["file"].startswith(("CAL-1.0", "SHL-2.1")) else f"walk:{ex['dir']}:{ex['file']}:{ex['file_kind']}"
         return key, f"iter_files yields {ex['got']}, the statement demands {ex['expected']} for {ex}", {"harness": "C03.py::_walk", "explain": ex}
 
